@@ -1,6 +1,130 @@
-"""sidecar contracts (see tools/CONTRACTS_GUIDE.md)"""
+"""sidecar contracts (see tools/CONTRACTS_GUIDE.md)
+
+P_ctx -- context functions and context elements (properties C07, C08).  Sidecar contracts of lena/context/functions.py
+(intersection, update_nested, str_to_list, str_to_dict, format_update_with, to_string), lena/context/elements.py
+(DeleteContext) and lena/context/update_context.py (UpdateContext).
+
+Reference functions are written from the property texts (properties.jsonl C07 / C08) and the docstrings:
+  inter(a, b, l)   the greatest dictionary contained in both a and b, comparing nested dictionaries down to level l
+  (diff, upd, walk are those of C07.py / C08.py)."""
 from pyvc.contracts import Contract, LoopSpec, ClassSpec
+from pyvc.smt import T, I
+from pyvc.sym import Opaque, Bool, Str, Num
+from pyvc.dicts import dterm
+from pyvc.verify import Lemma
+
+from contracts.C07 import declare_diff, diff_def, declare_upd, upd_def
+
+CF = "lena/context/functions.py"
+CE = "lena/context/elements.py"
+UC = "lena/context/update_context.py"
+SENT = "Sentinel[lena.context.functions._sentinel]"
+
+# ------------------------------------------------------------------------------------------------------- intersection
+# docstring / property text: every item of the result is contained in both dictionaries (recursively) and the result is
+# the greatest such dictionary: a key is kept iff both have it and either the values are equal (kept as it is) or both
+# values are dictionaries and the recursion level is not exhausted (then the intersection of the two values is kept --
+# also when it is empty: {} is contained in every dictionary).  level 0: the arguments must be equal, otherwise {}.
+INTER_ITEM = """(define-fun inter_item ((a Val) (b Val) (l Int) (k Key)) Opt
+  (ite (or (not (vhas a k)) (not (vhas b k))) none
+  (ite (= (vget a k) (vget b k)) (select (dm a) k)
+  (ite (and (not (= l 1)) (isD (vget a k)) (isD (vget b k))) (some (inter (vget a k) (vget b k) (- l 1)))
+       none))))"""
+
+
+def inter_def(a, b, l):
+    r = "(inter %s %s %s)" % (a, b, l)
+    return ("(=> (and (isD {a}) (isD {b})) (and (isD {r}) "
+            "(=> (= {l} 0) (= {r} (ite (= {a} {b}) {a} (D emptymap)))) "
+            "(=> (not (= {l} 0)) (forall ((ik Key)) (! (= (select (dm {r}) ik) (inter_item {a} {b} {l} ik)) "
+            ":pattern ((select (dm {r}) ik)))))))").format(a=a, b=b, l=l, r=r)
+
+
+def declare_inter(reg):
+    reg.need_val()
+    reg.ufun("inter", ["Val", "Val", "Int"], "Val")
+    reg.fun_decl("inter_item", INTER_ITEM)
+
+
+def sp_inter_spec(ip, st, pos, kws):
+    declare_inter(ip.reg)
+    a, b, l = dterm(ip, st, pos[0]), dterm(ip, st, pos[1]), ip.num(pos[2])
+    if not ip.bound_stack:
+        ax = T(inter_def(a.s, b.s, l.s), "Bool")
+        if not any(x.s == ax.s for x in st.pc):
+            st.pc.append(ax)           # definition of the reference function at these arguments
+    return Opaque(T("(inter %s %s %s)" % (a.s, b.s, l.s), "Val"))
+
+
+def sp_inter_item(ip, st, pos, kws):
+    declare_inter(ip.reg)
+    a, b, l = dterm(ip, st, pos[0]), dterm(ip, st, pos[1]), ip.num(pos[2])
+    return Opaque(T("(inter_item %s %s %s %s)" % (a.s, b.s, l.s, ip.key_term(pos[3]).s), "Opt"))
+
+
+# what res[k] holds once key k has been visited by the pruning loop: the intersection item, or (when the key is to be
+# deleted, which is deferred to the second loop) still the copied item of the first dictionary
+KEPT = ("(inter_item(dicts[0], d, level, {k}) if inter_item(dicts[0], d, level, {k}) != absent() "
+        "else item(dicts[0], {k}))")
+
+
+def register_intersection(ix):
+    ix.spec_names["inter_spec"] = sp_inter_spec
+    ix.spec_names["inter_item"] = sp_inter_item
+    two = dict(
+        vararg="dicts", kwarg="kwargs", result="Dict", dict_model="Val", local_types={"to_delete": "Lst[Key]"},
+        raises={"LenaTypeError": "not isdict(dicts[0]) or not isdict(dicts[1])"}, raises_frame="pure",
+        loops={
+            # for key in res  (the body replaces values of res in place and collects the keys to delete)
+            1: LoopSpec(invariant=[
+                "isdict(res)",
+                "all_keys(lambda k: item(res, k) == (%s if seen(k) else item(dicts[0], k)))" % KEPT.format(k="k"),
+                "all(seen(to_delete[i]) and (to_delete[i] in res) "
+                "and inter_item(dicts[0], d, level, to_delete[i]) == absent() for i in range(len(to_delete)))",
+                "all(all(implies(i < j, to_delete[i] != to_delete[j]) for j in range(len(to_delete))) "
+                "for i in range(len(to_delete)))",
+                "all_keys(lambda k: implies(seen(k) and inter_item(dicts[0], d, level, k) == absent(), k in to_delete))",
+            ]),
+            # for key in to_delete: del res[key]
+            2: LoopSpec(invariant=[
+                "isdict(res)",
+                "all_keys(lambda k: item(res, k) == (absent() if any(to_delete[j] == k for j in range(_i)) else %s))"
+                % KEPT.format(k="k"),
+            ], decreases="len(to_delete) - _i"),
+        })
+    frame = ["dicts[0] == old(dicts[0])", "dicts[1] == old(dicts[1])"]
+    ix.add(Contract(
+        CF, "intersection", props=["C07"], dict_model="Val",
+        cases=[
+            Contract(CF, "intersection", name="intersection[d1, d2, level=l]",
+                     params={"dicts": "Tuple[Dict,Dict]", "kwargs": "KwDict[level:Int]"},
+                     ensures=["result == inter_spec(dicts[0], dicts[1], old(kwargs['level']))",
+                              "is_deep_copy(result)"] + frame, **two),
+            Contract(CF, "intersection", name="intersection[d1, d2]",
+                     params={"dicts": "Tuple[Dict,Dict]", "kwargs": "KwDict[]"},
+                     ensures=["result == inter_spec(dicts[0], dicts[1], -1)", "is_deep_copy(result)"] + frame, **two),
+            Contract(CF, "intersection", name="intersection[d1, level=l]", dict_model="Val",
+                     params={"dicts": "Tuple[Dict]", "kwargs": "KwDict[level:Int]"}, vararg="dicts", kwarg="kwargs",
+                     result="Dict", raises={"LenaTypeError": "not isdict(dicts[0])"}, raises_frame="pure",
+                     ensures=["result == dicts[0]", "is_deep_copy(result)", "dicts[0] == old(dicts[0])"]),
+            Contract(CF, "intersection", name="intersection[level=l]", dict_model="Val",
+                     params={"dicts": "Tuple[]", "kwargs": "KwDict[level:Int]"}, vararg="dicts", kwarg="kwargs",
+                     result="Dict", raises={}, ensures=["result == emptydict()", "is_deep_copy(result)"]),
+            Contract(CF, "intersection", name="intersection[]", dict_model="Val",
+                     params={"dicts": "Tuple[]", "kwargs": "KwDict[]"}, vararg="dicts", kwarg="kwargs",
+                     result="Dict", raises={}, ensures=["result == emptydict()", "is_deep_copy(result)"]),
+            # unknown keyword arguments: LenaTypeError whatever the dictionaries are
+            Contract(CF, "intersection", name="intersection[d1, d2, level=l, unknown keyword]", dict_model="Val",
+                     params={"dicts": "Tuple[Dict,Dict]", "kwargs": "KwDict[level:Int,levle:Int]"},
+                     vararg="dicts", kwarg="kwargs", result="Dict", raises={"LenaTypeError": "True"}, raises_frame="pure"),
+            Contract(CF, "intersection", name="intersection[d1, d2, unknown keyword]", dict_model="Val",
+                     params={"dicts": "Tuple[Dict,Dict]", "kwargs": "KwDict[levle:Int]"},
+                     vararg="dicts", kwarg="kwargs", result="Dict", raises={"LenaTypeError": "True"}, raises_frame="pure"),
+        ],
+        notes="*dicts typed as a tuple of 0..2 dictionaries, **kwargs by the keyword names of the call (python's own "
+              "binding of surplus arguments); the recursive call goes through this contract; termination of the "
+              "recursion (on the depth of the first argument) is not an obligation of the engine"))
 
 
 def register(ix):
-    pass
+    register_intersection(ix)
